@@ -85,7 +85,7 @@ func (p *c02) Rule() string {
 func (p *c02) nStatic(ctx core.Ctx) int { return ctx.Pick(30000, 500000) }
 
 var c02Vals = []TV{
-	tvS("plain"), tvS("a<b>&c\"d'e"), tvS("&lt;"), tvS("&amp;amp;"), tvS("x;y&z;"), tvS("{{ not }}"), tvS("  padded  "), tvS("multi\nline"), tvS("é中\U0001F600"),
+	tvS("plain"), tvS("a<b>&c\"d'e"), tvS("&lt;"), tvS("&amp;amp;"), tvS("x;y&z;"), tvS("{{ not }}"), tvS("  padded  "), tvS("multi\nline"), tvS("cr\rin\r\nvalue"), tvS("é中\U0001F600"),
 	tvI(0), tvI(-42), {K: "int8", I: -8}, {K: "int16", I: 300}, {K: "int32", I: 1 << 20}, {K: "int64", I: 1 << 40}, {K: "uint", U: 7}, {K: "uint8", U: 200}, {K: "uint16", U: 65535}, {K: "uint32", U: 1 << 31}, {K: "uint64", U: 1 << 63},
 	tvF(1.5), tvF(1e21), tvF(-0.000001), {K: "float32", F: 0.25}, tvB(true), tvB(false),
 	tvList(tvI(1), tvS("<b>"), tvB(true)), tvKind("[]string", tvS("a&b"), tvS("c")), tvKind("[]int", tvI(1), tvI(2)), tvMap(map[string]TV{"k": tvS("<v>")}), {K: "map[string]string", M: map[string]TV{"a": tvS("1")}},
@@ -169,9 +169,14 @@ func (g *c02Gen) attrVal() string {
 		if i > 0 && g.r.Chance(1, 2) {
 			b.WriteString(" ")
 		}
-		if g.r.Chance(1, 2) {
+		switch {
+		case g.r.Chance(1, 2):
 			b.WriteString(core.Pick(g.r, c02Refs))
-		} else {
+		case g.r.Chance(1, 8):
+			// white space written as character references survives the tokenizer
+			// unchanged; in an attribute value it is significant
+			b.WriteString(core.Pick(g.r, []string{"a&#13;b", "&#13;&#10;", "x&#9;y", "&#xD;", "l&#10;f", "&#12;"}))
+		default:
 			b.WriteString(core.Pick(g.r, []string{"v", "a-b", "x=1", "it's", "50%", "a/b", "semi;", "k"}))
 		}
 	}
@@ -517,6 +522,18 @@ func (p *c02) execValue(o *core.Obs, c c02Case) {
 	} else {
 		a, _ := s[0].Attr(sinkAttr)
 		got = oracle.NormText(a)
+	}
+	if sinkAttr != "" && sinkAttr != "class" && sinkAttr != "style" {
+		// white space inside an attribute value is significant: the kind of each
+		// white-space character must survive, not only the words around it
+		a, _ := s[0].Attr(sinkAttr)
+		full := lDec + fmt.Sprint(val) + rDec
+		for _, ws := range []string{"\r", "\n", "\t"} {
+			if strings.Count(a, ws) != strings.Count(full, ws) {
+				o.Fail(c, sig+"/attr-whitespace-changed", "attribute %s holds %q, expected neighbours + value %q: the number of %q differs\noutput: %q", sinkAttr, a, full, ws, out)
+				break
+			}
+		}
 	}
 	if got != want {
 		o.Fail(c, sig+"/not-equal", "parsed sink value %q != neighbours + fmt.Sprint(value) %q (value %s)\noutput: %s", got, want, c.Val, out)
